@@ -6,11 +6,13 @@
   OBLIGATIONS (checked by the harness):
     mutex lock_discipline linearizable linearizable_when_free atomic_load_is_load
     deadlock_free nonreentrant_nested_load_deadlocks reentrant_nested_load_completes
-    unlocked_store_breaks_wf locked_store_is_setitem
+    unlocked_store_breaks_wf locked_store_is_setitem code_lock_is_reentrant
+    deadlock_free_for_code
 -/
 import Genshi.Lemmas.ConcLoad
 import Genshi.Lemmas.Lru
 import Genshi.Model.ConcLru
+import Genshi.Gen.Loader
 namespace Genshi.Props.C16
 open Genshi.Lru Genshi.Loader Genshi.Conc
 
@@ -85,6 +87,19 @@ theorem deadlock_free (c : CCfg) (hre : c.reentrant = true) (ls0 : LState) (h0 :
     ∃ u, u < (exec c (G.init ls0 progs) sched).n ∧
       (step c (exec c (G.init ls0 progs) sched) u).isSome = true :=
   (ginv_exec (ginv_init ls0 h0 progs) sched).progress hre ht hunf
+
+/-- The lock a `TemplateLoader` creates is re-entrant (probed on the code by the translator on
+    every run; the generated constant changes if `threading.RLock` is replaced). -/
+theorem code_lock_is_reentrant : Genshi.Gen.Loader.lockIsReentrant = true := rfl
+
+/-- deadlock freedom for the kind of lock the code uses now -/
+theorem deadlock_free_for_code (c : CCfg) (hre : c.reentrant = Genshi.Gen.Loader.lockIsReentrant)
+    (ls0 : LState) (h0 : ls0.lock = 0) (progs : List (List CReq)) (sched : List Tid) (t : Tid)
+    (ht : t < (exec c (G.init ls0 progs) sched).n)
+    (hunf : ((exec c (G.init ls0 progs) sched).threads t).finished = false) :
+    ∃ u, u < (exec c (G.init ls0 progs) sched).n ∧
+      (step c (exec c (G.init ls0 progs) sched) u).isSome = true :=
+  deadlock_free c (by rw [hre]; exact code_lock_is_reentrant) ls0 h0 progs sched t ht hunf
 
 /-! ### the dependence on the mechanism -/
 
